@@ -108,6 +108,12 @@ FanOut(u) ==
            TimeC(s2, o2, FALSE, <<Lk(1, c2)>>)>>, ord, 6, "dag", "fanout") :
      sp \in Steps1, s1 \in StepSeqsS, s2 \in Steps1, o2 \in {0, 1},
      c1 \in ChainsUpTo1(AtomsS), c2 \in ChainsUpTo1(AtomsS), ord \in Perms3}
+(* a fast reader behind an integration adapter next to a slow reader that drags the producer   *)
+(* several steps ahead: how far ahead depends on the listing order, what is delivered must not *)
+FanOutSum(u) ==
+  {MkCfg(<<TimeC(<<1>>, 0, FALSE, <<>>), TimeC(s1, 0, FALSE, <<Lk(1, <<Integ(ik)>>)>>),
+           TimeC(s2, 0, FALSE, <<Lk(1, c2)>>)>>, <<1, 2, 3>>, 8, "dag", "fanoutsum") :
+     s1 \in {<<1>>, <<2>>}, s2 \in {<<3>>, <<4>>}, ik \in {"sum", "avg"}, c2 \in {<<>>, <<Buf("linear")>>}}
 (* the two readers hang on ONE shared adapter chain (harness: cfg.shared) *)
 FanOutShared(u) ==
   {MkCfg(<<TimeC(sp, op, FALSE, <<>>), TimeC(s1, 0, ip, <<Lk(1, ch)>>),
@@ -334,6 +340,7 @@ CfgSpace(f) ==
     [] f = "fanin2"     -> FanIn2(0)
     [] f = "fanin1"     -> FanIn1(0)
     [] f = "fanout"     -> FanOut(0)
+    [] f = "fanoutsum"  -> FanOutSum(0)
     [] f = "pullfanout" -> PullFanOut(0)
     [] f = "diamondt"   -> DiamondT(0)
     [] f = "diamondp"   -> DiamondP(0)
@@ -361,6 +368,6 @@ CfgSpace(f) ==
 
 AllFamilies == {"pair", "pairL", "pairXL", "pair3", "chain3t", "chain3p", "fanin2", "fanin1",
                 "fanout", "pullfanout", "diamondt", "diamondp", "pullchain2", "ring2", "ring3",
-                "ring4", "pullring", "pullringtail", "ringbreak", "wsum", "pulltwice", "ring2tail", "fanoutshared", "repeatinteg", "sinkfan", "lateidle", "ringfanin", "fanout3shared", "chain3d", "wsumback", "finisher", "trigger", "staticin", "ringavg"}
+                "ring4", "pullring", "pullringtail", "ringbreak", "wsum", "pulltwice", "ring2tail", "fanoutshared", "repeatinteg", "sinkfan", "lateidle", "ringfanin", "fanout3shared", "chain3d", "wsumback", "finisher", "trigger", "staticin", "ringavg", "fanoutsum"}
 
 =============================================================================
